@@ -21,6 +21,8 @@ pub trait BitSetLike: Sized {
         ensures r == self.bview().contains(i);
     fn iter(self) -> (r: BitIter<Self>)
         ensures r.rem() == sorted_seq(self.bview()), r.set_view() == self.bview();
+    fn is_empty(&self) -> (r: bool)
+        ensures r == (self.bview() =~= Set::<u32>::empty());
 }
 
 #[verifier::external_body]
@@ -52,6 +54,8 @@ impl BitSetLike for BitSet {
     fn contains(&self, i: u32) -> (r: bool) { unimplemented!() }
     #[verifier::external_body]
     fn iter(self) -> (r: BitIter<Self>) { unimplemented!() }
+    #[verifier::external_body]
+    fn is_empty(&self) -> (r: bool) { unimplemented!() }
 }
 impl<'a> BitSetLike for &'a BitSet {
     open spec fn bview(&self) -> Set<u32> { (**self)@ }
@@ -59,6 +63,8 @@ impl<'a> BitSetLike for &'a BitSet {
     fn contains(&self, i: u32) -> (r: bool) { unimplemented!() }
     #[verifier::external_body]
     fn iter(self) -> (r: BitIter<Self>) { unimplemented!() }
+    #[verifier::external_body]
+    fn is_empty(&self) -> (r: bool) { unimplemented!() }
 }
 pub struct BitSetAll;
 impl BitSetLike for BitSetAll {
@@ -67,6 +73,8 @@ impl BitSetLike for BitSetAll {
     fn contains(&self, i: u32) -> (r: bool) { unimplemented!() }
     #[verifier::external_body]
     fn iter(self) -> (r: BitIter<Self>) { unimplemented!() }
+    #[verifier::external_body]
+    fn is_empty(&self) -> (r: bool) { unimplemented!() }
 }
 pub struct BitSetNot<A: BitSetLike>(pub A);
 impl<A: BitSetLike> BitSetLike for BitSetNot<A> {
@@ -75,6 +83,8 @@ impl<A: BitSetLike> BitSetLike for BitSetNot<A> {
     fn contains(&self, i: u32) -> (r: bool) { unimplemented!() }
     #[verifier::external_body]
     fn iter(self) -> (r: BitIter<Self>) { unimplemented!() }
+    #[verifier::external_body]
+    fn is_empty(&self) -> (r: bool) { unimplemented!() }
 }
 pub struct BitSetAnd<A: BitSetLike, B: BitSetLike>(pub A, pub B);
 impl<A: BitSetLike, B: BitSetLike> BitSetLike for BitSetAnd<A, B> {
@@ -83,6 +93,8 @@ impl<A: BitSetLike, B: BitSetLike> BitSetLike for BitSetAnd<A, B> {
     fn contains(&self, i: u32) -> (r: bool) { unimplemented!() }
     #[verifier::external_body]
     fn iter(self) -> (r: BitIter<Self>) { unimplemented!() }
+    #[verifier::external_body]
+    fn is_empty(&self) -> (r: bool) { unimplemented!() }
 }
 
 #[verifier::external_body]
@@ -102,13 +114,6 @@ impl<B> BitIter<B> {
             final(self).set_view() == old(self).set_view(),
             old(self).rem().len() == 0 ==> r is None && final(self).rem() == old(self).rem(),
             old(self).rem().len() > 0 ==> r == Some(old(self).rem()[0]) && final(self).rem() == old(self).rem().drop_first(),
-    { unimplemented!() }
-}
-
-impl BitSet {
-    #[verifier::external_body]
-    pub fn is_empty(&self) -> (r: bool)
-        ensures r == (self@ == Set::<u32>::empty())
     { unimplemented!() }
 }
 
@@ -139,6 +144,8 @@ impl BitSetLike for AtomicBitSet {
     fn contains(&self, i: u32) -> (r: bool) { unimplemented!() }
     #[verifier::external_body]
     fn iter(self) -> (r: BitIter<Self>) { unimplemented!() }
+    #[verifier::external_body]
+    fn is_empty(&self) -> (r: bool) { unimplemented!() }
 }
 impl<'a> BitSetLike for &'a AtomicBitSet {
     open spec fn bview(&self) -> Set<u32> { (**self)@ }
@@ -146,6 +153,8 @@ impl<'a> BitSetLike for &'a AtomicBitSet {
     fn contains(&self, i: u32) -> (r: bool) { unimplemented!() }
     #[verifier::external_body]
     fn iter(self) -> (r: BitIter<Self>) { unimplemented!() }
+    #[verifier::external_body]
+    fn is_empty(&self) -> (r: bool) { unimplemented!() }
 }
 // BitSetOr(a, b): the union of two bit sets
 pub struct BitSetOr<A: BitSetLike, B: BitSetLike>(pub A, pub B);
@@ -155,6 +164,8 @@ impl<A: BitSetLike, B: BitSetLike> BitSetLike for BitSetOr<A, B> {
     fn contains(&self, i: u32) -> (r: bool) { unimplemented!() }
     #[verifier::external_body]
     fn iter(self) -> (r: BitIter<Self>) { unimplemented!() }
+    #[verifier::external_body]
+    fn is_empty(&self) -> (r: bool) { unimplemented!() }
 }
 impl<A: BitSetLike, B: BitSetLike> BitSetOr<A, B> {
     pub open spec fn view(&self) -> Set<u32> { self.0.bview() + self.1.bview() }
